@@ -5,6 +5,7 @@
 package simdisk
 
 import (
+	"errors"
 	"fmt"
 	"io"
 	"os"
@@ -63,6 +64,14 @@ type Fault struct {
 	// the surviving prefix as a fraction of the data.
 	NthWrite     int
 	KeepPermille int
+	// Path (with Op and Occ), when non-empty, addresses the fault to the
+	// Occ-th call (1-based) of kind Op on that resolved path (for a
+	// listing: the pattern) instead of a global call index - an address
+	// that stays meaningful when the code under test issues its I/O calls
+	// from several goroutines in varying order.
+	Path string
+	Op   byte
+	Occ  int
 	// ErrStyle selects which error value the faulty call returns (what
 	// real systems hand back differs, and code that inspects errors by
 	// identity or type can tell them apart): 0 the usual *os.PathError
@@ -106,8 +115,17 @@ func faultErr(op byte, p string, f Fault) error {
 	return pathErr("read", p, syscall.EIO)
 }
 
-// CrashPanic is the panic value that aborts an operation at a crash.
+// CrashPanic is kept for callers that recover it; crashes no longer panic.
 type CrashPanic struct{ Seq int }
+
+var errCrashed = errors.New("simulated crash: the process no longer exists")
+
+// Crashed reports whether the current operation was killed by a Crash fault.
+func (m *Mem) Crashed() bool {
+	m.mu.Lock()
+	defer m.mu.Unlock()
+	return m.crashed
+}
 
 // Access is one entry of the access log.
 type Access struct {
@@ -160,6 +178,7 @@ type Mem struct {
 	// Frozen, when set, makes every write fail the run (used to assert
 	// that nothing writes after a crash).
 	crashed bool
+	occ     map[string]int // per (op, path) call counts of the current operation
 }
 
 // NewMem returns an empty disk with "/" as the only directory.
@@ -229,6 +248,9 @@ func (m *Mem) Get(p string) ([]byte, bool) {
 
 // BeginOp resets the per-operation I/O call index and installs a plan.
 func (m *Mem) BeginOp(plan []Fault) {
+	m.mu.Lock()
+	defer m.mu.Unlock()
+	m.occ = map[string]int{}
 	m.opIndex = 0
 	m.opWrites = 0
 	m.Plan = plan
@@ -237,7 +259,11 @@ func (m *Mem) BeginOp(plan []Fault) {
 }
 
 // OpCalls returns the number of I/O calls since BeginOp.
-func (m *Mem) OpCalls() int { return m.opIndex }
+func (m *Mem) OpCalls() int {
+	m.mu.Lock()
+	defer m.mu.Unlock()
+	return m.opIndex
+}
 
 // LogFrom returns the accesses with Seq >= seq.
 func (m *Mem) LogFrom(seq int) []Access {
@@ -250,15 +276,34 @@ func (m *Mem) LogFrom(seq int) []Access {
 }
 
 // Seq returns the next global sequence number.
-func (m *Mem) Seq() int { return m.seq }
+func (m *Mem) Seq() int {
+	m.mu.Lock()
+	defer m.mu.Unlock()
+	return m.seq
+}
 
-func (m *Mem) fault(op byte) (Fault, bool) {
+func (m *Mem) fault(op byte, addr ...string) (Fault, bool) {
 	idx := m.opIndex
 	m.opIndex++
 	if op == 'W' {
 		m.opWrites++
 	}
+	occ := 0
+	if len(addr) > 0 {
+		if m.occ == nil {
+			m.occ = map[string]int{}
+		}
+		k := string(op) + addr[0]
+		m.occ[k]++
+		occ = m.occ[k]
+	}
 	for _, f := range m.Plan {
+		if f.Path != "" {
+			if len(addr) > 0 && f.Op == op && f.Path == addr[0] && f.Occ == occ && f.Kind.AppliesTo(op) {
+				return f, true
+			}
+			continue
+		}
 		if f.NthWrite > 0 {
 			if op == 'W' && f.NthWrite == m.opWrites && f.Kind.AppliesTo(op) {
 				return f, true
@@ -315,8 +360,11 @@ func (m *Mem) parentErr(p string) syscall.Errno {
 func (m *Mem) ReadFile(p string) ([]byte, error) {
 	m.mu.Lock()
 	defer m.mu.Unlock()
-	f, has := m.fault('R')
+	if m.crashed {
+		return nil, errCrashed
+	}
 	r := m.Resolve(p)
+	f, has := m.fault('R', r)
 	a := Access{Op: 'R', Path: p, Resolved: r}
 	if has && f.Kind == ReadEIO {
 		err := faultErr('R', p, f)
@@ -376,8 +424,11 @@ func (m *Mem) ReadFile(p string) ([]byte, error) {
 func (m *Mem) WriteFile(p string, data []byte) error {
 	m.mu.Lock()
 	defer m.mu.Unlock()
-	f, has := m.fault('W')
+	if m.crashed {
+		return errCrashed
+	}
 	r := m.Resolve(p)
+	f, has := m.fault('W', r)
 	a := Access{Op: 'W', Path: p, Resolved: r, N: len(data), Data: append([]byte(nil), data...)}
 	if has && f.Kind == WriteENOSPC {
 		err := faultErr('W', p, f)
@@ -435,8 +486,13 @@ func (m *Mem) WriteFile(p string, data []byte) error {
 		a.Fault, a.Err = f.Kind, err.Error()
 		m.record(a)
 		if f.Kind == Crash {
+			// the process is dead from here on: the disk is frozen in this
+			// state and every later call of the operation - from whichever
+			// goroutine - fails without effect (no panic: the write may have
+			// been issued by a goroutine other than the caller's, and the
+			// caller discards whatever the operation returns)
 			m.crashed = true
-			panic(CrashPanic{Seq: a.Seq})
+			return errCrashed
 		}
 		return err
 	}
@@ -451,7 +507,10 @@ func (m *Mem) WriteFile(p string, data []byte) error {
 func (m *Mem) FindWithPrefixAndSuffix(prefix, suffix string) ([]string, error) {
 	m.mu.Lock()
 	defer m.mu.Unlock()
-	f, has := m.fault('G')
+	if m.crashed {
+		return nil, errCrashed
+	}
+	f, has := m.fault('G', prefix+"*"+suffix)
 	a := Access{Op: 'G', Path: prefix + "*" + suffix}
 	if has && f.Kind == GlobEIO {
 		err := pathErr("readdirent", prefix, syscall.EIO)
